@@ -402,7 +402,7 @@ def get_edges(blocks, first_edge=0, polarity=0, analyse=False):
     return edges, data_blocks
 
 def _get_tape_block_timings(first_byte, pause=3500000):
-    pulses = ((3223 + 4840 * (first_byte == 0), 2168), (1, 667), (1, 735))
+    pulses = ((3223 + 4840 * (first_byte < 128), 2168), (1, 667), (1, 735))
     return TapeBlockTimings(pulses, (855, 855), (1710, 1710), pause)
 
 def _get_str(data, dump=False):
@@ -919,7 +919,7 @@ def write_pzx(fname, blocks):
         for i, data in enumerate(blocks):
             if i:
                 f.write(b'PAUS\x04\x00\x00\x00\xe0\x67\x35\x00')
-            if data[0]:
+            if data[0] > 127:
                 f.write(b'PULS\x08\x00\x00\x00\x97\x8c\x78\x08\x9b\x02\xdf\x02')
             else:
                 f.write(b'PULS\x08\x00\x00\x00\x7f\x9f\x78\x08\x9b\x02\xdf\x02')
